@@ -231,3 +231,41 @@ def table4(ctx) -> List[Ob]:
     else:
         out.append(bad("TABLE-4", aj.qualname, key, ctx.where(aj), "the targets are not recorded, in order, under the instruction's offset"))
     return out
+
+
+@rule("TABLE-5", 1, "the end of the code is the offset of the last instruction, whatever that instruction is")
+def table5(ctx) -> List[Ob]:
+    out: List[Ob] = []
+    fi = ctx.prog.cls("FlowInfo")
+    fb = fi.find_method("from_bytecode")
+    if fb is None:
+        raise AnalysisError("FlowInfo.from_bytecode not found")
+    cfg = ctx.cfg(fb)
+    sts = [s for s in A.walk_no_nested(fb.node) if isinstance(s, ast.Assign) and any(isinstance(t, ast.Attribute) and t.attr == "last_offset" for t in s.targets)]
+    key = "last_offset assignment"
+    if not sts:
+        out.append(bad("TABLE-5", fb.qualname, key, ctx.where(fb), "last_offset is never set: the last block ends at offset 2"))
+        return out
+    loops = [n for n in A.walk_no_nested(fb.node) if isinstance(n, ast.For)]
+    for s in sts:
+        where = ctx.where(fb, s)
+        if not (isinstance(s.value, ast.Attribute) and s.value.attr == "offset" and loops and isinstance(loops[0].target, ast.Name) and A.unparse(s.value.value) == loops[0].target.id):
+            out.append(bad("TABLE-5", fb.qualname, key, where, f"last_offset is set to {A.unparse(s.value)[:40]}, not to the offset of the instruction being scanned"))
+            continue
+        lp = loops[0]
+        inside = any(a is lp for a in A.ancestors(s))
+        if not inside:
+            n = cfg.node_of(s)
+            hdr = cfg.node_of(lp)
+            if cfg.dominates(hdr, n) and cfg.exit not in cfg.reachable(hdr, avoid=lambda z: z is n):
+                out.append(ok("TABLE-5", fb.qualname, key, where, "set once after the scan to the last instruction's offset"))
+            else:
+                out.append(bad("TABLE-5", fb.qualname, key, where, "last_offset is not set on every path after the scan"))
+        else:
+            # inside the loop: must execute unconditionally on every iteration
+            conds = [a for a in A.ancestors(s) if isinstance(a, (ast.If, ast.Try)) and any(x is lp for x in A.ancestors(a))]
+            if conds:
+                out.append(bad("TABLE-5", fb.qualname, key, where, f"last_offset is updated only under '{A.unparse(conds[0].test)[:50] if isinstance(conds[0], ast.If) else 'try'}': when the code does not end with such an instruction, the trailing instructions belong to no block (or KeyError)"))
+            else:
+                out.append(ok("TABLE-5", fb.qualname, key, where, "updated on every iteration"))
+    return out
